@@ -172,9 +172,11 @@ def valid_encoding(name):
     if not re.fullmatch(r'-?[A-Za-z_][A-Za-z0-9_-]*', name):
         return False
     try:
-        codecs.lookup(name)
+        if codecs.lookup(name).name == 'css':
+            return False
+        ' '.encode(name.lower())        # a text encoding (rot13, hex ... are codecs but cannot encode str to bytes)
         return True
-    except LookupError:
+    except (LookupError, ValueError):
         return False
 
 
